@@ -22,7 +22,8 @@ Tapes(f) ==
       Z == {i \in Idx(seq) : At(cp, i) = 0} \ f
       cls(c) == IF c = 1 THEN P ELSE IF c = 2 THEN Ng ELSE Z
   IN
-  CASE MoveName = "full_shuffle" ->
+  CASE MoveName = "swapRes" -> {<< <<"arg", i>>, <<"arg", j>> >> : i \in Idx(seq), j \in Idx(seq)}
+    [] MoveName = "full_shuffle" ->
          LET k == N - Cardinality(f) IN {<< <<"shuffle", SeqOfFn(p, k)>> >> : p \in Perms(k)}
     [] MoveName = "swapRandChargeRes" ->
          IF Z = {} THEN (IF P = {} \/ Ng = {} THEN {<<>>}
@@ -66,7 +67,7 @@ HasChild == case # <<>> /\ case.out.st \in {"child", "tie"}
 OnlyRearranges == HasChild => Rearrangement(seq, case.out.seq)
 \* demanded of the shuffle and the charge swap; block swap and clustering ignore `frozen' (finding K2)
 KeepsFrozen == (HasChild /\ MoveName \in {"full_shuffle", "swapRandChargeRes"}) => FrozenKept(seq, case.out.seq, case.frozen)
-SwapsSucceed == (case # <<>> /\ MoveName \in {"full_shuffle", "swapRandChargeRes"}) => case.out.st \in {"child", "self"}
+SwapsSucceed == (case # <<>> /\ MoveName \in {"full_shuffle", "swapRandChargeRes", "swapRes"}) => case.out.st \in {"child", "self"}
 UsesWholeTape == (case # <<>> /\ case.out.st \in {"child", "error", "tie"}) => case.out.used = Len(case.tape)
 SelfOnlyWhenNothingToSwap == (case # <<>> /\ case.out.st = "self") => MoveName = "swapRandChargeRes"
 \* the charge composition is unchanged, so a delta-max carried over from the parent is the child's
